@@ -122,6 +122,24 @@ def main(tier: str) -> int:
             bad = ("adaptation state (probabilities / memories / F / CR) differs", -1)
         if bad:
             chk.fail("minimising f and maximising -f visit different trajectories: " + bad[0], {"run": d, "generation": bad[1]}, feats)
+    # ---- the parallel evaluation path applies the sign too: pairs with n_jobs = 2
+    import c16_workers as W
+    from thefittest.optimizers import DifferentialEvolution, GeneticAlgorithm, SHAGA
+    W.DELAYS = 0
+    for cls, kw, f, nf in ((DifferentialEvolution, dict(iters=5, pop_size=8, left_border=-2.0, right_border=2.0, num_variables=3), W.sphere_delayed, W.neg_sphere_delayed),
+                           (GeneticAlgorithm, dict(iters=5, pop_size=9, str_len=12), W.onemax_delayed, W.neg_onemax_delayed),
+                           (SHAGA, dict(iters=4, pop_size=7, str_len=10), W.onemax_delayed, W.neg_onemax_delayed)):
+        res = []
+        for mn, fn in ((True, f), (False, nf)):
+            o = cls(fitness_function=fn, minimization=mn, n_jobs=2, keep_history=True, random_state=chk.seed + 9, **kw)
+            o.fit()
+            st = o.get_stats()
+            res.append(([np.asarray(p, dtype=np.float64).tolist() for p in st["population_g"]], [list(map(float, x)) for x in st["fitness"]], float(o.get_fittest()["fitness"])))
+        chk.count("parallel_pair_" + cls.__name__)
+        chk.case(("parallel_pair", cls.__name__))
+        if res[0] != res[1]:
+            chk.fail("minimising f and maximising -f visit different trajectories when evaluated with n_jobs = 2",
+                     {"optimizer": cls.__name__, "n_jobs": 2, "best": [res[0][2], res[1][2]]}, {"optimizer": cls.__name__, "clause": "dual_parallel"})
     chk.notes.append("pairs (min f, v) / (max -f, -v), same seed, 10 optimizers x objectives with asymmetric ranges / plateaus / negative values (+ huge, ties in thorough) x elitism x g2p + optimal_value/error and stagnation stops; compared at every generation incl. adaptation state")
     return chk.finish()
 
